@@ -51,7 +51,7 @@ ASSUMPTIONS = ['roman_standard is structural: thousands prefix by induction, the
                '\\renewcommand{\\thec} is generated at the top level of the body only (it is local to its group), with \\the... references going strictly upwards (no cycles); '
                'a non-arabic \\thechapter is generated only while the chapter number stays positive (known finding roman-chapter-zero-float covers the other case)']
 RULE = ('num: exhaustive ranges; ctr/fmt: seeded random histories (fmt: counter values incl. 10, 20, 100, 1000 and multiples of 10; judged against the executable '
-        'nested-substitution oracle substEval); doc8: seeded random documents (explicit values on the digit boundaries 9/10, 99/100 ..., 8% long documents of 10-24 units)  (~15% malformed: undefined counters, 5-deep lists); '
+        'nested-substitution oracle substEval); doc8: seeded random documents, 40 (thorough 400) groups of 2-4 of them parsed by a fresh Python process each (which construct a process uses first matters for per-class caches) (explicit values on the digit boundaries 9/10, 99/100 ..., 8% long documents of 10-24 units)  (~15% malformed: undefined counters, 5-deep lists); '
         'non-trivial = spec defined and (num: always; ctr: at least one reset edge and one step; doc8: at least 3 printed numbers); distinct = distinct request line')
 EXHAUSTIVE = {'quick': 'num stream: Roman and roman for every value 1..4999, Alph/alph 1..26 (plus -60..60 for the model)',
               'thorough': 'num stream: Roman and roman for every value -100..5100, Alph/alph/arabic/fnsymbol -60..60'}
@@ -61,8 +61,24 @@ logging.disable(logging.CRITICAL)
 
 # ---------------------------------------------------------------- translator
 
-RX1 = (r'\$(\w+)', r'${\1}')
-RX2 = r'\$\{\s*(\w+)(?:\.(\w+))?\s*\}'
+def _regexes_of_the_code():
+    """the three regex literals of TheCounter.invoke, read from the current source (AST): pattern and replacement of
+    the first `re.sub`, pattern of the second"""
+    import plasTeX
+    fn = ast.parse(inspect.getsource(plasTeX.TheCounter)).body[0]
+    subs = [n for n in ast.walk(fn) if isinstance(n, ast.Call) and isinstance(n.func, ast.Attribute) and n.func.attr == 'sub'
+            and isinstance(n.func.value, ast.Name) and n.func.value.id == 're' and isinstance(n.args[0], ast.Constant)]
+    subs.sort(key=lambda n: (n.lineno, n.col_offset))
+    with_repl = [n for n in subs if isinstance(n.args[1], ast.Constant) and '$' in n.args[0].value]
+    with_cb = [n for n in subs if isinstance(n.args[1], ast.Name) and n.args[1].id == 'counterValue']
+    return (with_repl[0].args[0].value, with_repl[0].args[1].value), with_cb[0].args[0].value
+
+
+try:
+    RX1, RX2 = _regexes_of_the_code()
+except Exception:                      # source shape changed: fall back to the last known literals
+    RX1 = (r'\$(\w+)', r'${\1}')
+    RX2 = r'\$\{\s*([^\s.{}]+)(?:\.(\w+))?\s*\}'
 
 
 def split_format(fmt):
@@ -201,7 +217,7 @@ GENERATED = [gen_counters]
 
 # ---------------------------------------------------------------- generation: num / ctr / fmt
 
-NAMES = ['ca', 'cb', 'c3', 'Cd', 'c_e', 'cf']     # digits, capitals and `_` are word characters too
+NAMES = ['ca', 'c-b', 'c3', 'Cd', 'c_e', 'cf']     # digits, capitals and `_` are word characters; `-` is legal in a LaTeX counter name
 FMTS = ['arabic', 'roman', 'Roman', 'alph', 'Alph', 'fnsymbol']
 
 
@@ -321,6 +337,11 @@ class DocGen:
         if self.thms and self.thms[0][0] == 'thma' and rng.random() < 0.3:
             self.src.append('\\newtheorem{thme}{Claim}[thma]')
             self.ev.append('NT:thme:-:thma:0'); self.thms.append(('thme', 'thme'))
+        if rng.random() < 0.25:
+            # LaTeX builds counter names with \csname: any characters are legal, e.g. a hyphen
+            w = rng.choice(units + [None])
+            self.src.append('\\newtheorem{thm-x}{Proposition}%s' % ('[%s]' % w if w else ''))
+            self.ev.append('NT:thm-x:-:%s:0' % (w or '-')); self.thms.append(('thm-x', 'thm-x'))
         if rng.random() < 0.6:
             self.src.append('\\newcounter{ua}')
             self.ev.append('N:ua:-'); self.user.append('ua')
@@ -331,6 +352,9 @@ class DocGen:
                 if rng.random() < 0.5:
                     self.src.append('\\newcounter{uc}[ub]')
                     self.ev.append('N:uc:ub'); self.user.append('uc')
+            if rng.random() < 0.2:
+                self.src.append('\\newcounter{u-d}[ua]')
+                self.ev.append('N:u-d:ua'); self.user.append('u-d')
 
     def text(self):
         return self.rng.choice(['alpha', 'beta gamma', 'x', 'some text', 'word'])
@@ -350,7 +374,7 @@ class DocGen:
         c = rng.choice(self.readable())
         if rng.random() < 0.5:
             self.show('arabic', c)
-        elif not (self.appendix and c == self.unit):
+        elif not (self.appendix and c == self.unit) and c.isalpha():
             self.src.append('\\emph{\\the%s}' % c); self.ev.append('ST:%s' % c)
         else:
             self.show('arabic', c)
@@ -375,7 +399,7 @@ class DocGen:
         """\\renewcommand{\\thec}{...} at the top level of the body"""
         rng = self.rng
         units = self.printed_units()
-        cands = [u for u in units[:3]] + ['equation', 'figure', 'table'] + sorted({c for _, c in self.thms if c})
+        cands = [u for u in units[:3]] + ['equation', 'figure', 'table'] + sorted({c for _, c in self.thms if c and c.isalpha()})
         c = rng.choice(cands)
         if self.appendix and c == self.unit:
             return self.show_any()
@@ -459,6 +483,26 @@ class DocGen:
         s.append('\\end{eqnarray}')
         self.src.append(''.join(s))
 
+    def eqnarray_star(self):
+        """the unnumbered relative: rows print no number and do not step the counter (LaTeX: eqnarray*)"""
+        rng = self.rng
+        rows = rng.randint(1, 3)
+        s = ['\\begin{eqnarray*}']
+        for i in range(rows):
+            s.append('a_%d &=& b' % i)
+            self.ev.append('C:srow:equation:1:%d' % CMD_LEVEL)
+            if i < rows - 1:
+                s.append(rng.choice(['\\\\ ', '\\\\ ', '\\\\* ', '\\\\[2pt] ']))
+        s.append('\\end{eqnarray*}')
+        self.src.append(''.join(s))
+
+    def display(self):
+        """an equation-like display: numbered, unnumbered array, or plain unnumbered display math"""
+        r = self.rng.random()
+        if r < 0.55: self.eqnarray()
+        elif r < 0.9: self.eqnarray_star()
+        else: self.src.append(self.rng.choice(['\\[a=b\\]', '\\begin{displaymath}a=b\\end{displaymath}']))
+
     def float_(self):
         rng = self.rng
         kind = rng.choice(['figure', 'table'])
@@ -482,7 +526,7 @@ class DocGen:
         self.ev.append('H:%s' % env)
         r = rng.random()
         if r < 0.25: self.equation()
-        elif r < 0.35: self.eqnarray()
+        elif r < 0.35: self.display()
         elif r < 0.5 and allow_list and self.depth < 3: self.list_()
         self.src.append('\\end{%s}' % env)
 
@@ -552,7 +596,7 @@ class DocGen:
             r = rng.random()
             if r < 0.30: self.heading()
             elif r < 0.42: self.equation()
-            elif r < 0.50: self.eqnarray()
+            elif r < 0.50: self.display()
             elif r < 0.60: self.float_()
             elif r < 0.74: self.theorem()
             elif r < 0.84: self.list_()
@@ -570,12 +614,13 @@ def doc_blocks(g, n_pre_ev):
     return [[''.join(g.src[a:c]), g.ev[b:d]] for (a, b), (c, d) in zip(marks, marks[1:])]
 
 
-def doc_case_parts(cls, snd, pre, pre_ev, blocks, malformed, cfg=None):
+def doc_case_parts(cls, snd, pre, pre_ev, blocks, malformed, cfg=None, extra=None):
     # `Document.invoke` also runs for \end{document}: the configured initial values are applied a second time there
     post_ev = ['IC:%s:%d' % (c, v) for c, v in (cfg or {}).items()]
     line = '%s %d %s' % (cls, snd, ' '.join(pre_ev + [w for _, evs in blocks for w in evs] + post_ev))
     meta = {'kind': 'doc', 'cls': cls, 'snd': snd, 'pre': pre, 'pre_ev': pre_ev, 'blocks': blocks,
             'body': ''.join(src for src, _ in blocks), 'malformed': malformed, 'cfg': cfg or {}}
+    meta.update(extra or {})
     return line, meta
 
 
@@ -628,6 +673,16 @@ def generate(ctx):
             _, w = gen_doc(rng, 'quick')
             meta['warmup'] = {'cls': w['cls'], 'snd': w['snd'], 'pre': w['pre'], 'body': w['body'], 'cfg': w['cfg']}
         yield Case('doc8', line, meta)
+    # histories in a *fresh interpreter*: plasTeX caches per class and per process (Macro.locals, @arguments, class
+    # attributes ...), so which construct is used first in a process matters.  Each group is a short sequence of
+    # documents parsed one after the other by a new Python process; every document of it is a doc8 case.
+    for g in range(40 if ctx.tier == 'quick' else 400):
+        docs = [gen_doc(rng, 'quick') for _ in range(rng.randint(2, 4))]
+        gid = 'g%d-%d' % (ctx.seed, g)
+        _GROUPS[gid] = [slim_meta(m) for _, m in docs]
+        for i, (line, meta) in enumerate(docs):
+            meta.update({'fresh': True, 'group': gid, 'history': _GROUPS[gid][:i]})
+            yield Case('doc8', line, meta)
     for _ in range(n):
         yield Case('ctr', gen_ctr(rng), {'kind': 'ctr'})
     for _ in range(n // 2):
@@ -635,13 +690,33 @@ def generate(ctx):
         yield Case('fmt', line, meta)
 
 
+_GROUPS = {}          # group id -> slim metas of its documents, in order (filled by generate)
+_FRESH_CACHE = {}     # json of [history..., document] -> observation of the last one
+
+
+def slim_meta(m):
+    return {'kind': 'doc', 'cls': m['cls'], 'snd': m['snd'], 'pre': m['pre'], 'body': m['body'], 'cfg': m.get('cfg') or {}}
+
+
 def _doc_case(cls, snd, pre, body, events):
     return Case('doc8', '%s %d %s' % (cls, snd, events),
                 {'kind': 'doc', 'cls': cls, 'snd': snd, 'pre': pre, 'body': body, 'malformed': False}, 'corpus')
 
 
+def _fresh(case, history=()):
+    case.meta.update({'fresh': True, 'history': [slim_meta(h.meta) for h in history]})
+    return case
+
+
 def corpus():
     return [
+        # in a fresh interpreter: the unnumbered relative first, then the numbered environment (per-class caches)
+        _fresh(_doc_case('article', 2, '', '\\begin{eqnarray*}a&=&b\\\\ c&=&d\\end{eqnarray*}\\begin{eqnarray}a&=&b\\\\ c&=&d\\nonumber\\\\ e&=&f\\end{eqnarray}'
+                         '\\begin{equation}g=h\\end{equation}',
+                         'C:srow:equation:1:1001 C:srow:equation:1:1001 QB QR NN QR C:equation:equation:0:201')),
+        _fresh(_doc_case('book', 2, '', '\\chapter{A}\\begin{figure}\\caption{x}\\end{figure}\\begin{eqnarray}a&=&b\\\\ c&=&d\\end{eqnarray}',
+                         'C:chapter:chapter:0:0 C:caption:figure:0:1001 QB QR'),
+               history=[_doc_case('article', 2, '', '\\section*{S}\\begin{figure*}\\caption{y}\\end{figure*}\\begin{eqnarray*}a&=&b\\end{eqnarray*}', '')]),
         # \newcounter{foo}[section]: the optional argument must be read as a string for the reset to happen
         _doc_case('article', 2, '\\newcounter{ub}[section]', '\\section{A}\\stepcounter{ub}\\stepcounter{ub}\\section{B}\\stepcounter{ub}',
                   'N:ub:section C:section:section:0:1 S:ub S:ub C:section:section:0:1 S:ub'),
@@ -672,6 +747,10 @@ def corpus():
         # \\* ends an eqnarray row like \\: the next row is numbered
         _doc_case('article', 2, '', '\\begin{eqnarray}a&=&b\\\\* c&=&d\\\\[2pt] e&=&f\\end{eqnarray}\\begin{equation}x\\end{equation}',
                   'QB QR QR C:equation:equation:0:201'),
+        # counter names that are not plain words
+        _doc_case('article', 2, '\\newtheorem{main-thm}{Theorem}[section]\\newcounter{u-d}',
+                  '\\section{A}\\begin{main-thm}x\\end{main-thm}\\begin{main-thm}y\\end{main-thm}\\stepcounter{u-d}\\emph{\\arabic{u-d}}',
+                  'NT:main-thm:-:section:0 N:u-d:- C:section:section:0:1 H:main-thm H:main-thm S:u-d SH:arabic:u-d'),
         # \part is numbered in Roman
         _doc_case('book', 2, '', '\\part{P}\\chapter{A}\\part{Q}\\chapter{B}',
                   'C:part:part:0:-1 C:chapter:chapter:0:0 C:part:part:0:-1 C:chapter:chapter:0:0'),
@@ -781,21 +860,21 @@ def observe(doc):
             elif nm == 'item' and in_enum:
                 tag = 'item'
             elif nm == 'ArrayRow' and in_eqn:
-                tag = 'row'
+                tag = in_eqn              # 'row' in eqnarray, 'srow' in eqnarray*
             elif nm == 'emph':
                 out.append('show=%s' % c.textContent)
             if tag:
                 r = getattr(c, 'ref', None)
                 out.append('%s=%s' % (tag, '-' if r is None else r.textContent))
-            ie = in_eqn or nm == 'eqnarray'
+            ie = 'row' if nm == 'eqnarray' else 'srow' if nm == 'eqnarray*' else in_eqn
             if nm in ('enumerate', 'itemize', 'description'):
                 ien = (nm == 'enumerate')
             else:
                 ien = in_enum
             if hasattr(c, 'childNodes'):
-                walk(c, ie and nm not in ('equation',), ien)
+                walk(c, None if nm == 'equation' else ie, ien)
 
-    walk(doc, False, False)
+    walk(doc, None, False)
     return out
 
 
@@ -803,7 +882,42 @@ def build_tex(meta):
     return '\\documentclass{%s}%s\\begin{document}%s\\end{document}' % (meta['cls'], meta['pre'], meta['body'])
 
 
+FRESH_RUNNER = ('import sys, json\n'
+                'import framework, props.c08 as P\n'
+                'docs = json.load(sys.stdin)\n'
+                'print(json.dumps([P.impl_doc(d) for d in docs]))\n')
+
+
+def run_fresh(docs):
+    """parse the documents one after the other in a new Python process; returns their observations"""
+    import json, os, subprocess, sys
+    env = dict(os.environ)
+    here = os.path.dirname(os.path.dirname(os.path.abspath(__file__)))
+    env['PYTHONPATH'] = here + os.pathsep + env.get('PYTHONPATH', '')
+    p = subprocess.run([sys.executable, '-c', FRESH_RUNNER], input=json.dumps(docs), capture_output=True, text=True,
+                       env=env, timeout=120)
+    if p.returncode != 0:
+        raise SystemError('fresh interpreter failed: ' + p.stderr[-500:])
+    return json.loads(p.stdout.strip().split('\n')[-1])
+
+
+def impl_fresh(meta):
+    import json
+    chain = list(meta.get('history') or []) + [slim_meta(meta)]
+    key = json.dumps(chain, sort_keys=True)
+    if key not in _FRESH_CACHE:
+        full = _GROUPS.get(meta.get('group'))
+        if full and full[:len(chain)] == chain:
+            chain = full                       # one process for the whole group
+        outs = run_fresh(chain)
+        for i in range(len(chain)):
+            _FRESH_CACHE[json.dumps(chain[:i + 1], sort_keys=True)] = outs[i]
+    return _FRESH_CACHE[key]
+
+
 def impl_doc(meta):
+    if meta.get('fresh'):
+        return impl_fresh(meta)
     if meta.get('warmup'):
         impl_doc(dict(meta['warmup']))
     doc, tex = fresh_doc()
@@ -876,7 +990,22 @@ def shrink(ctx, o, evaluate):
 
 def shrink_doc(o, evaluate):
     best = o
-    for _ in range(60):
+    fresh = bool(o.case.meta.get('fresh'))
+    if fresh:
+        # drop documents of the history while the failure stays
+        for _ in range(6):
+            m = best.case.meta
+            hist = m.get('history') or []
+            cands = []
+            for i in range(len(hist)):
+                meta = dict(m, history=hist[:i] + hist[i + 1:])
+                meta.pop('group', None)
+                cands.append(Case('doc8', best.case.line, meta, 'shrink'))
+            nxt = next((r for r in evaluate(cands) if not r.prop_ok), None) if cands else None
+            if nxt is None:
+                break
+            best = nxt
+    for _ in range(8 if fresh else 60):
         m = best.case.meta
         blocks = m['blocks']
         if len(blocks) <= 1:
@@ -884,7 +1013,7 @@ def shrink_doc(o, evaluate):
         cands = []
         for i in range(len(blocks)):
             line, meta = doc_case_parts(m['cls'], m['snd'], m['pre'], m['pre_ev'], blocks[:i] + blocks[i + 1:], m['malformed'],
-                                        m.get('cfg'))
+                                        m.get('cfg'), {'fresh': True, 'history': m.get('history') or []} if fresh else None)
             cands.append(Case('doc8', line, meta, 'shrink'))
         nxt = next((r for r in evaluate(cands) if not r.prop_ok), None)
         if nxt is None:
